@@ -248,7 +248,7 @@ sinh cosh tanh cbrt hypot ldexp frexp modf llround lround nearbyint rint isatty 
 dup dup2 fdopen close open read write dlopen dlsym dlclose dlerror usleep nanosleep memchr strcpy strncpy strcat strdup qsort rand srand random srandom
 __cxa_allocate_exception __cxa_throw __cxa_begin_catch __cxa_end_catch __cxa_rethrow __cxa_free_exception
 __cxa_guard_acquire __cxa_guard_release __cxa_guard_abort __cxa_atexit __cxa_pure_virtual __cxa_bad_cast __cxa_bad_typeid
-__cxa_throw_bad_array_new_length __dynamic_cast _Unwind_Resume __atomic_load_1
+__cxa_throw_bad_array_new_length __dynamic_cast _Unwind_Resume __atomic_load_1 __g2c_atexit_dropped
 '''.split())
 
 STD_RENDER_OK = re.compile(r'^std::(move|forward|min|max|addressof|__addressof)<')
@@ -599,6 +599,21 @@ class EH:
 
 def method_render(self):
     f = self.f
+    # guarded initialisation of a function-local static: GCC's artificial guard variable (_ZGV...) and __dso_handle are globals that
+    # appear in no declaration list; they become plain C identifiers (defined in contracts/rt.h as G2C_GUARD(<name>) / __dso_handle), and
+    # the registration of the destructor with __cxa_atexit is dropped (process exit is outside every contract)
+    guards = set()
+    for b in f.blocks:
+        for i, st in enumerate(b.stmts):
+            if '_ZGV' in st or '__dso_handle' in st:
+                for g_ in re.findall(r'\b(_ZGV\w+?)D_\d+\b', st):
+                    guards.add(g_)
+                st = re.sub(r'\b(_ZGV\w+?)D_\d+\b', r'\1', st)
+                st = re.sub(r'\b__dso_handleD_\d+\b', '__dso_handle', st)
+                if re.search(r'\b__cxa_atexitD_\d+ \(', st):
+                    st = re.sub(r'^(\s*(?:\[[^\]]*\]\s*)?)__cxa_atexitD_\d+ \(.*\);\s*$', r'\1__g2c_atexit_dropped ();', st)
+                b.stmts[i] = st
+    self.R.guard_vars = getattr(self.R, 'guard_vars', set()) | guards
     self.collect_vars()
     eh = EH(f.eh[1:] if f.eh and f.eh[0].startswith('Eh tree') else f.eh)
     ret = self.ctype(f.rettype)
@@ -1215,7 +1230,8 @@ class Renderer:
             if name in self.external or name.startswith('VCALL_') or name.startswith('ICALL_'):
                 # K&R-style declaration: compatible with the full definition a contract header may give before
                 ext_decl.append('%s %s();' % (final(self.struct_ret[name]), name))
-        fns_c = '\n'.join(ext_decl + protos) + '\n\n' + '\n\n'.join(bodies) + '\n'
+        guard_decl = ['static long %s;   /* guard of a function-local static (zero: not yet initialised) */' % g_ for g_ in sorted(getattr(self, 'guard_vars', set()))]
+        fns_c = '\n'.join(guard_decl + ext_decl + protos) + '\n\n' + '\n\n'.join(bodies) + '\n'
         return types_h, fns_c
 
     def base_of(self, q, uid_hint, nextfield):
